@@ -484,6 +484,20 @@ def LocalFlushPre (v : View) (which : Nat) : Prop :=
   v.net = true ∧ SP v.sess ∧ v.o.Quiet ∧
   ((which = 0 ∧ Hand v ∧ Framed v.wire ∧ IsConnect v.wire) ∨ (which ≠ 0 ∧ v.avail = false ∧ Lv v []))
 
+/-- What is kept about a connection that is not live (dead, dropped, or not yet established): its
+wire is whole packets and possibly the beginning of one more, and its log has each retained packet at
+most once, in serial order. -/
+def DeadOK (v : View) : Prop := Pfx v.wire ∧ LogSorted v.log
+
+/-- At the `flush` await of `disconnect_with` the DISCONNECT is wholly on the transport and the handle is
+already finished (`handle_disconnect()` runs before that flush is awaited): what is kept is what is kept
+about any dead connection. -/
+def DiscFlushPre (v : View) : Prop := v.net = true ∧ v.live = false ∧ DeadOK v ∧ v.conn.isSome = true
+
+/-- Precondition of `doLocalFlush`. -/
+def LFPre (v : View) (which : Nat) : Prop :=
+  if which = 0 then LocalFlushPre v 0 else if which = 1 then LocalFlushPre v 1 else DiscFlushPre v
+
 /-- At the `read` await of `wait_for_progress`: the stored deadline is the session's next keep-alive
 deadline, the timer has been registered (`yielded`), and the reader has already probed the fixed header
 and offered a non-empty window — `receive_buffer` is idempotent, so a fresh call offers the same. -/
@@ -500,13 +514,8 @@ def PcOK (v : View) : Pc → Prop
   | .q0Write bytes => LocalPre v 1 bytes
   | .q0Flush => LocalFlushPre v 1
   | .discWrite bytes => LocalPre v 2 bytes
-  | .discFlush => LocalFlushPre v 2
+  | .discFlush => DiscFlushPre v
   | .waitRead _ d y => IdlePre v ∧ v.avail = false ∧ ReadOK v d y
-
-/-- What is kept about a connection that is not live (dead, dropped, or not yet established): its
-wire is whole packets and possibly the beginning of one more, and its log has each retained packet at
-most once, in serial order. -/
-def DeadOK (v : View) : Prop := Pfx v.wire ∧ LogSorted v.log
 
 /-- The invariant between directives. -/
 def PhaseV (v : View) (fut : Option Pc) : Prop :=
@@ -894,6 +903,8 @@ def φAF (w : World) (k : AfterFlush) : Nat := 1000 * mS w + 40 * kpN k + 4
 def φPerf (w : World) : Nat := 1000 * mS w + 2
 def φIO (w : World) : Nat := 1000 * mS w + 1
 def φLW (w : World) : Nat := 1000 * mS w + 2
+/-- `doLocalFlush`: only CONNECT's flush goes on (to `doConnRead`). -/
+def φLF (w : World) (which : Nat) : Nat := if which = 0 then φIO w else 1
 def φSR (w : World) : StepCtx → Nat
   | .flush k => 1000 * mS w + 40 * kpN k + 6
   | .drive _ _ => mD w + 25
@@ -1168,7 +1179,7 @@ def MachineW (fuel : Nat) : Prop :=
   (∀ w ctx adv, φSR w ctx ≤ fuel → FlushPre w.view → Post (stepReturned fuel w ctx adv)) ∧
   (∀ w k, φAF w k ≤ fuel → QuietPre w.view → w.view.avail = false → Post (afterFlush fuel w k)) ∧
   (∀ w which bytes, φLW w ≤ fuel → LocalPre w.view which bytes → Post (doLocalWrite fuel w which bytes)) ∧
-  (∀ w which, φIO w ≤ fuel → LocalFlushPre w.view which → Post (doLocalFlush fuel w which)) ∧
+  (∀ w which, φLF w which ≤ fuel → LFPre w.view which → Post (doLocalFlush fuel w which)) ∧
   (∀ w, φIO w ≤ fuel → LocalFlushPre w.view 0 → Post (doConnRead fuel w)) ∧
   (∀ w o adv, φDL w o adv ≤ fuel → DrivePre w.view → Post (driveLoop fuel w o adv)) ∧
   (∀ w o adv, φDAS w o adv ≤ fuel → DrivePre w.view → Post (driveAfterService fuel w o adv)) ∧
@@ -1194,7 +1205,7 @@ theorem machineW_zero : MachineW 0 := by
   · intro w ctx adv hf; cases ctx <;> simp only [φSR, mD] at hf <;> omega
   · intro w k hf; simp only [φAF] at hf; omega
   · intro w which bytes hf; simp only [φLW] at hf; omega
-  · intro w which hf; simp only [φIO] at hf; omega
+  · intro w which hf; simp only [φLF, φIO] at hf; split at hf <;> omega
   · intro w hf; simp only [φIO] at hf; omega
   · intro w o adv hf; simp only [φDL] at hf; omega
   · intro w o adv hf; simp only [φDAS] at hf; omega
@@ -1376,7 +1387,28 @@ theorem wire_doLocalWrite (fuel : Nat) (ih : MachineW fuel) :
   · rename_i hemp
     have : bytes = [] := by simpa using hemp
     subst this
-    exact i8 _ _ (by simp only [φLW, φIO] at hfuel ⊢; omega) h.toFlush
+    rcases discDone_cases w which with ⟨e, h01⟩ | ⟨e, h0, h1⟩ <;> rw [e]
+    · refine i8 _ _ ?_ ?_
+      · simp only [φLF, φLW, φIO] at hfuel ⊢; split <;> omega
+      · rcases h01 with h0 | h1
+        · subst h0; simp only [LFPre, if_true]; exact h.toFlush
+        · subst h1; simp only [LFPre]; exact h.toFlush
+    · refine i8 _ _ ?_ ?_
+      · simp only [φLF, φLW, if_neg h0] at hfuel ⊢; omega
+      · simp only [LFPre, if_neg h0, if_neg h1]
+        rw [view_handleDisconnect]
+        have hlive : w.view.live = true := by
+          rcases h.2.2.2 with ⟨hz, _⟩ | ⟨_, _, pre, hl, _⟩
+          · exact (h0 hz).elim
+          · exact hl.live
+        have hsome : w.view.conn.isSome = true := by
+          unfold View.live at hlive
+          cases hc : w.view.conn with
+          | none => rw [hc] at hlive; cases hlive
+          | some c => rfl
+        refine ⟨h.1, hd_live w.view w.sess.handleDisconnect, h.pfx, ?_⟩
+        show (w.view.conn.map _).isSome = true
+        rw [Option.isSome_map]; exact hsome
   · split
     · rename_i w' heq
       have hv := ioWrite_view h.1 heq
@@ -1472,44 +1504,66 @@ theorem connectGotPacket_post (w : World) (h : LocalFlushPre w.view 0) : Post (W
   · exact Post.hd_finishErr _ _ h1.pfx
 
 theorem wire_doLocalFlush (fuel : Nat) (ih : MachineW fuel) :
-    ∀ w which, φIO w ≤ fuel + 1 → LocalFlushPre w.view which → Post (doLocalFlush (fuel + 1) w which) := by
+    ∀ w which, φLF w which ≤ fuel + 1 → LFPre w.view which → Post (doLocalFlush (fuel + 1) w which) := by
   intro w which hfuel h
   obtain ⟨_, _, _, _, _, _, _, _, i9, _⟩ := ih
-  simp only [doLocalFlush]
-  split
-  · rename_i w' heq
-    have hv := ioFlush_view heq
-    apply Post.suspend
-    rw [hv]
+  by_cases h0 : which = 0
+  · -- CONNECT
+    subst h0
+    simp only [LFPre, if_true] at h
+    simp only [φLF, if_true] at hfuel
+    simp only [doLocalFlush, if_true]
     split
-    · rename_i h0; subst h0; exact h
-    · rename_i h0
-      split
-      · rename_i h1; subst h1; exact h
-      · exact h.which h0 (by decide)
-  · rename_i w' k heq
-    have hv := ioFlush_view heq
-    split
-    · rename_i h0; subst h0
+    · rename_i w' heq
+      have hv := ioFlush_view heq
+      apply Post.suspend
+      rw [hv]; exact h
+    · rename_i w' k heq
+      have hv := ioFlush_view heq
       exact Post.dead_finishErr _ _ (by rw [hv]; exact h.dead) (by rw [hv]; exact h.pfx)
-    · split <;> exact Post.hd_finishErr _ _ (by rw [hv]; exact h.pfx)
-  · rename_i w' heq
-    have hv := ioFlush_view heq
-    obtain ⟨p1, _, _, _, p5⟩ := ioFlush_pot heq
-    have hs1 := p5 rfl
-    split
-    · rename_i h0; subst h0
+    · rename_i w' heq
+      have hv := ioFlush_view heq
+      obtain ⟨p1, _, _, _, p5⟩ := ioFlush_pot heq
+      have hs1 := p5 rfl
       apply i9
       · have e : mS ({ w' with sess := w'.sess.clearPing } : World) = mS w' := rfl
         simp only [φIO] at hfuel ⊢; omega
       · show LocalFlushPre { w'.view with sess := w'.view.sess.clearPing } 0
         rw [hv]; exact h.sess (closed_SP.clearPing _ h.2.1) (handshake_keeps_allFresh _ h.fresh).2.1
-    · rename_i h0
-      split
-      · apply Post.live_finish
-        show FlushPre { w'.view with sess := w'.view.sess.noteActivity w'.now }
-        rw [hv]; exact h.done h0 _
-      · exact Post.hd_finish _ (by rw [hv]; exact h.pfx)
+  by_cases h1 : which = 1
+  · -- QoS 0 PUBLISH
+    subst h1
+    simp only [LFPre] at h
+    simp only [doLocalFlush]
+    split
+    · rename_i w' heq
+      have hv := ioFlush_view heq
+      apply Post.suspend
+      rw [hv]; exact h
+    · rename_i w' k heq
+      have hv := ioFlush_view heq
+      exact Post.hd_finishErr _ _ (by rw [hv]; exact h.pfx)
+    · rename_i w' heq
+      have hv := ioFlush_view heq
+      apply Post.live_finish
+      show FlushPre { w'.view with sess := w'.view.sess.noteActivity w'.now }
+      rw [hv]; exact h.done (by decide) _
+  · -- DISCONNECT: the handle is dead already; whatever the flush does, a dead connection is left
+    simp only [LFPre, if_neg h0, if_neg h1] at h
+    obtain ⟨hnet, hlive, hdead, hconn⟩ := h
+    simp only [doLocalFlush, if_neg h0, if_neg h1]
+    split
+    · rename_i w' heq
+      have hv := ioFlush_view heq
+      apply Post.suspend
+      rw [hv]
+      exact ⟨hnet, hlive, hdead, hconn⟩
+    · rename_i w' k heq
+      have hv := ioFlush_view heq
+      exact Post.hd_finishErr _ _ (by rw [hv]; exact hdead)
+    · rename_i w' heq
+      have hv := ioFlush_view heq
+      exact Post.hd_finish _ (by rw [hv]; exact hdead)
 
 theorem wire_doConnRead (fuel : Nat) (ih : MachineW fuel) :
     ∀ w, φIO w ≤ fuel + 1 → LocalFlushPre w.view 0 → Post (doConnRead (fuel + 1) w) := by
